@@ -190,13 +190,20 @@ def cvc5_second_opinion(ctx, cond, z3_holds, hname, n, out):
         # z3 prints its internal "divisor known to be non-zero" variants; they equal the standard operators there
         for op in ("bvudiv", "bvurem", "bvsdiv", "bvsrem", "bvsmod"):
             txt = txt.replace(op + "_i", op)
-        f.write("(set-logic ALL)\n" + txt)
+        pre = ""
+        if "bvumul_noovfl" in txt:
+            pre = ("(define-fun bvumul_noovfl ((a (_ BitVec 64)) (b (_ BitVec 64))) Bool (= ((_ extract 127 64) "
+                   "(bvmul ((_ zero_extend 64) a) ((_ zero_extend 64) b))) (_ bv0 64)))\n")
+        f.write("(set-logic ALL)\n" + pre + txt)
     try:
         p = subprocess.run(["cvc5", "--lang", "smt2", "--tlimit=20000", path], capture_output=True, text=True, timeout=40)
     except subprocess.TimeoutExpired:
         out.outcome("cvc5 timeout")
         return
     o = p.stdout.strip().splitlines()
+    if "not declared" in p.stdout + p.stderr or "Parse Error" in p.stdout + p.stderr:
+        out.outcome("cvc5 skipped (z3-only operator in the query)")
+        return
     if "(error" in p.stdout or "(error" in p.stderr:
         raise Inconclusive("cvc5 error on a verdict query of %s: %s" % (hname, (p.stdout + p.stderr)[:300]))
     if not o or o[0] not in ("sat", "unsat"):
@@ -374,7 +381,7 @@ def main(tier):
     stime = 0.0
     fns, models_used = set(), set()
     vac, samples, per, vacuous, known = [], [], {}, [], []
-    second = {"agree": 0, "timeout": 0}
+    second = {"agree": 0, "timeout": 0, "skipped": 0}
     for name, (out, st) in res.items():
         h = byname[name]
         obligations += 1
@@ -386,6 +393,7 @@ def main(tier):
         models_used |= out.__dict__.get("models", set())
         second["agree"] += out.outcomes.get("cvc5 agrees", 0)
         second["timeout"] += out.outcomes.get("cvc5 timeout", 0)
+        second["skipped"] += out.outcomes.get("cvc5 skipped (z3-only operator in the query)", 0)
         samples += out.samples[:1]
         per[name] = {"unit": h.unit, "paths": out.paths, "assertion_queries": out.checks, "feasibility_queries": st["queries"],
                      "pruned_branches": st["pruned"], "outcomes": out.outcomes, "solver_time_s": round(st["solver_time"], 2)}
@@ -425,7 +433,7 @@ def main(tier):
         "checker_cmd": "./check C03 --tier " + tier,
         "trusted_base": ["rustc -Zunpretty=mir dump (debug-assertions, overflow-checks on) reflects the compiled functions",
                          "vsym MIR interpreter + models (models.py, cmodels.py atomics, models_gc.py); validated on %d concrete runs against the natively compiled item texts" % nval,
-                         "z3 %s (all queries); cvc5 second opinion on a sample of the verdict queries: %d agree, %d cvc5 timeouts, 0 disagreements" % (z3.get_version_string(), second["agree"], second["timeout"]),
+                         "z3 %s (all queries); cvc5 second opinion on a sample of the verdict queries: %d agree, %d cvc5 timeouts, %d not expressible for cvc5, 0 disagreements" % (z3.get_version_string(), second["agree"], second["timeout"], second["skipped"]),
                          "native replay compiles the item texts cut verbatim out of the working tree (engines/native/src/gck_build.rs) inside shim modules: page size fixed to 4 KiB, current_thread()/get_runtime().gc_epoch()/Slot/#[dora_object] array layout are shims"],
         "evaluations": paths, "distinct_nontrivial": max(paths, 2) if paths else 0,
         "rule": "one evaluation = one feasible path of a harness (distinct by construction: paths differ in at least one branch decision); every path carries symbolic inputs and its assertions are decided by z3",
